@@ -1,9 +1,10 @@
 import FormulaicVerif.Engines.Json
 import FormulaicVerif.Model.Contrasts
 import FormulaicVerif.Model.ContrastsCache
+import FormulaicVerif.Model.ContrastsExt
 import FormulaicVerif.Spec.Contrasts
 namespace FormulaicVerif.Engines.C11
-open Lean FormulaicVerif.Model.Contrasts FormulaicVerif.Engines
+open Lean FormulaicVerif.Model.Contrasts FormulaicVerif.Model.ContrastsExt FormulaicVerif.Engines
 
 /-- rationals travel as "p/q" strings (or "p") -/
 def ratJ (r : Rat) : Json := Json.str (toString r.num ++ "/" ++ toString r.den)
@@ -65,6 +66,9 @@ def coefJ (c : Contrast) (levels : List Label) (reduced : Bool) : Json :=
   else
     exceptJ (fun _ => matJ (toRows eye n n)) (getCodingMatrix c levels false false)
 
+def labelsJ (p : List Label × List Label) : Json :=
+  Json.mkObj [("index", jlist (p.1.map labelJ)), ("columns", jlist (p.2.map labelJ))]
+
 def matricesFor (c : Contrast) (levels : List Label) (reduced : Bool) : Json :=
   Json.mkObj [
     ("coding_dense", exceptJ matJ (getCodingMatrix c levels reduced false)),
@@ -72,6 +76,9 @@ def matricesFor (c : Contrast) (levels : List Label) (reduced : Bool) : Json :=
     ("norms2", exceptJ (fun l => jlist (l.map ratJ)) (codingNorms2 c levels reduced)),
     ("coef", coefJ c levels reduced),
     ("names", exceptJ (fun l => jlist (l.map labelJ)) (codingColumnNames c levels reduced)),
+    ("row_names", exceptJ (fun l => jlist (l.map labelJ)) (coefRowNames c levels reduced)),
+    ("coding_labels", exceptJ labelsJ (codingFrameLabels c levels reduced)),
+    ("coef_labels", exceptJ labelsJ (coefFrameLabels c levels reduced)),
     ("drop_field", exceptJ optLabelJ (dropField c levels reduced)),
     ("spans_intercept", Json.bool (spansIntercept levels reduced)),
     ("format", Json.str (factorFormat c reduced))]
@@ -86,8 +93,79 @@ def encodedJ (e : Encoded × List Label) : Json :=
     ("format_reduced", Json.str e.1.formatReduced),
     ("categories", jlist (e.2.map labelJ))]
 
+
+/-! ### extended surface: custom contrasts, the `contrasts=` argument, direct `apply`, frame labels -/
+
+def xerrJ : XErr → Json
+  | .base e => errJ e
+  | .shape1d => jerr "IndexError"
+  | .missingArgument => jerr "TypeError"
+  | .notSquare false => jerr "LinAlgError"
+  | .singular false => jerr "LinAlgError"
+  | .singular true => jerr "RuntimeError"
+  | .uncertified => jerr "model-uncertified"
+  | .nanResult => jerr "nan-result"
+  | _ => jerr "ValueError"
+
+def xexceptJ {α} (f : α → Json) : Except XErr α → Json
+  | .ok a => f a
+  | .error e => xerrJ e
+
+def ratsOf (j : Json) : List Rat := (asArr j).map fun s => parseRat (asStr s)
+
+/-- {"form": "dict", "items": [[label, [..]], …]} | {"form": "rows"|"ndarray", "rows": [[..], …]} | {"form": "flat", "vals": [..]} -/
+def inputOf (j : Json) : CustomInput :=
+  match jstr j "form" with
+  | "dict" => .dict ((jarr j "items").map fun it =>
+      match asArr it with
+      | [l, vs] => (labelOf l, ratsOf vs)
+      | _ => (Label.str "", []))
+  | "flat" => .flat (ratsOf (jval j "vals"))
+  | _ => .rows ((jarr j "rows").map ratsOf)
+
+def namesOf (j : Json) : Option (List Label) :=
+  if (jval j "names").isNull then none else some ((jarr j "names").map labelOf)
+
+/-- the `contrasts=` argument: a built-in instance (as before), {"k": "unset"}, {"k": "cls", "name": …},
+{"k": "custom", …input…, "names": [..]|null} -/
+def argOf (j : Json) : ContrastArg :=
+  match jstr j "k" with
+  | "unset" => .unset
+  | "cls" => .cls (jstr j "name")
+  | "custom" => .custom (inputOf j) (namesOf j)
+  | _ => .builtin (contrastOf j)
+
+def shapeJ : Shape → Json
+  | .d1 m => jlist [Json.num (JsonNumber.fromNat m)]
+  | .d2 r c => jlist [Json.num (JsonNumber.fromNat r), Json.num (JsonNumber.fromNat c)]
+
+def customFor (k : Custom) (levels : List Label) (reduced : Bool) : Json :=
+  Json.mkObj [
+    ("coding_dense", xexceptJ matJ (customCodingMatrix k levels false)),
+    ("coding_sparse", xexceptJ matJ (customCodingMatrix k levels true)),
+    ("coef_dense", xexceptJ matJ (customCoefMatrix k levels reduced false)),
+    ("coef_sparse", xexceptJ matJ (customCoefMatrix k levels reduced true)),
+    ("names", xexceptJ (fun l => jlist (l.map labelJ)) (customColumnNames k)),
+    ("row_names", jlist ((customRowNames levels reduced).map labelJ)),
+    ("coding_labels", xexceptJ labelsJ (do
+        let _ ← customCodingMatrix k levels false
+        let names ← customColumnNames k
+        pure (levels, names))),
+    ("coef_labels", xexceptJ labelsJ (do
+        let _ ← customCoefMatrix k levels reduced false
+        pure (customRowNames levels reduced, levels))),
+    ("drop_field", Json.null),
+    ("spans_intercept", Json.bool false),
+    ("format", Json.str plainFormat)]
+
+def dtypeOf : String → DummiesType
+  | "frame" => .frame
+  | "ndarray" => .ndarray
+  | "spmatrix" => .spmatrix
+  | _ => .other
+
 def merrJ : FormulaicVerif.Model.ContrastsCache.MErr → Json
-  | .encode e => errJ e
+  | .encode e => xerrJ e
   | .keyError => jerr "KeyError"
 
 /-- put the per-factor answers back into the order of the history -/
@@ -109,16 +187,18 @@ def formulaFor (j : Json) : Json :=
   let cats := match levels with
     | some ls => ls
     | none => inferLevels data
-  let runOne (which : String) (c : Contrast) : Except FormulaicVerif.Model.ContrastsCache.MErr (List Json) :=
+  let runOne (which : String) (arg : ContrastArg) : Except FormulaicVerif.Model.ContrastsCache.MErr (List Json) :=
     let qs := (hist.filter fun h => jstr h "which" == which).map fun h =>
       (⟨jbool h "reduced", jbool h "newspec"⟩ : FormulaicVerif.Model.ContrastsCache.Request)
-    match FormulaicVerif.Model.ContrastsCache.materialize ⟨data, c, levels, out, none⟩ qs with
+    match FormulaicVerif.Model.ContrastsCache.materialize ⟨data, arg, levels, out, none⟩ qs with
     | .error e => .error e
     | .ok encs => .ok ((encs.zip qs).map fun (e, q) =>
         Json.mkObj [("enc", encodedJ (e, cats)),
-                    ("norms2", exceptJ (fun l => jlist (l.map ratJ)) (codingNorms2 c cats q.reduced))])
-  match runOne "A" (contrastOf (jval j "contrast")),
-        (if (jval j "contrast2").isNull then .ok [] else runOne "B" (contrastOf (jval j "contrast2"))) with
+                    ("norms2", match resolveArg arg with
+                      | .ok (.builtin c) => exceptJ (fun l => jlist (l.map ratJ)) (codingNorms2 c cats q.reduced)
+                      | _ => Json.null)])
+  match runOne "A" (argOf (jval j "contrast")),
+        (if (jval j "contrast2").isNull then .ok [] else runOne "B" (argOf (jval j "contrast2"))) with
   | .error e, _ => merrJ e
   | _, .error e => merrJ e
   | .ok as, .ok bs => Json.mkObj [("encs", jlist (interleave (hist.map fun h => jstr h "which") as bs))]
@@ -133,11 +213,39 @@ def handle (j : Json) : Json :=
       let levels := if (jval j "levels").isNull then none else some ((jarr j "levels").map labelOf)
       let data := (jarr j "data").map optLabelOf
       let reduced := jbool j "reduced"
-      let enc := encodeContrasts data c levels reduced (jstr j "output")
-      let norms := match enc with
-        | .ok (_, cats) => exceptJ (fun l => jlist (l.map ratJ)) (codingNorms2 c cats reduced)
-        | .error _ => Json.null
-      Json.mkObj [("enc", exceptJ encodedJ enc), ("norms2", norms)]
+      let arg := argOf (jval j "contrast")
+      -- "drop_rows" (positions) present: the request went through the encoder closure of `C(...)`
+      let enc := if (jval j "drop_rows").isNull then xEncodeContrasts data arg levels reduced (jstr j "output")
+                 else cEncoder data arg levels none ((jarr j "drop_rows").map asNat) reduced (jstr j "output")
+      let norms := match enc, resolveArg arg with
+        | .ok (_, cats), .ok (.builtin c) => exceptJ (fun l => jlist (l.map ratJ)) (codingNorms2 c cats reduced)
+        | _, _ => Json.null
+      Json.mkObj [("enc", xexceptJ encodedJ enc), ("norms2", norms)]
+  | "custom" =>
+      let levels := (jarr j "levels").map labelOf
+      match mkCustom (inputOf (jval j "contrast")) (namesOf (jval j "contrast")) with
+      | .error e => Json.mkObj [("init", xerrJ e)]
+      | .ok k =>
+          Json.mkObj [("init", Json.mkObj [("shape", shapeJ k.shape),
+                                           ("names", match k.names with
+                                              | none => Json.null
+                                              | some ns => jlist (ns.map labelJ))]),
+                      ("reduced", customFor k levels true), ("full", customFor k levels false)]
+  | "apply" =>
+      let levels := (jarr j "levels").map labelOf
+      let dummies := (jarr j "dummies").map ratsOf
+      let output := if (jval j "output").isNull then none else some (jstr j "output")
+      let reduced := jbool j "reduced"
+      match resolveArg (argOf (jval j "contrast")) with
+      | .error e => Json.mkObj [("init", xerrJ e)]
+      | .ok x =>
+          let r := applyDirect x (dtypeOf (jstr j "dtype")) dummies levels reduced output
+          let norms := match r, x with
+            | .ok _, .builtin c => exceptJ (fun l => jlist (l.map ratJ)) (codingNorms2 c levels reduced)
+            | _, _ => Json.null
+          Json.mkObj [("enc", xexceptJ (fun (e : Encoded × String) =>
+                          (encodedJ (e.1, levels)).setObjVal! "output" (Json.str e.2)) r),
+                      ("norms2", norms)]
   | "formula" => formulaFor j
   | _ => jerr "unknown-op"
 
